@@ -6,14 +6,18 @@ For the properties in GENTIE_READY, `run_tie(R, pid)` — called by check.py bef
 
   1. regenerates `lean/OdcGeo/Gen/Cxx.lean` from the Python source under test (tools/py2lean.py; the tree is
      `$ODC_GEO_REPO` if set, else /repo), written only when the text changes;
-  2. builds `OdcGeo.Props.GenCxx`: the theorems `tie_<function>` prove every regenerated definition equal to the
-     hand model for all inputs, `gen_<theorem>` restate headline property theorems about the regenerated
-     definitions.  When the build is green the module is added to the property's theorem modules
-     (`common.props_modules`), so the audit counts its theorems as obligations, checks their axioms, and the
-     thorough tier re-checks them with leanchecker;
+  2. builds the tie pieces `OdcGeo.Props.GenCxx.<Piece>` (one compilation unit per tied function or small group;
+     `OdcGeo.Props.GenCxx` imports them all): the theorems `tie_<function>` prove every regenerated definition equal
+     to the hand model for all inputs, `gen_<theorem>` restate headline property theorems about the regenerated
+     definitions.  The pieces that build are added to the property's theorem modules (`common.props_modules`), so the
+     audit counts their theorems as obligations, checks their axioms, and the thorough tier re-checks them with
+     leanchecker; a lost tie only removes its own piece (and the pieces importing it: the ties of its callers);
   3. validates the translator itself: the generated definitions (run by the Lean interpreter through the generated
      `selfCheck` entry point) and the real Python functions are evaluated on a few hundred generated inputs each —
-     including inputs outside the models' domains (zero / negative divisors, half-way values) — and diffed;
+     including inputs outside the models' domains (zero / negative divisors, half-way values) — and diffed; a passing
+     result is cached in `lean/.lake/gentie_selfcheck_Cxx.json` keyed on the sha256 of everything it depends on
+     (generated text, prelude, manifest, this file, the python modules of the tied functions, seed, size), so an
+     unchanged tree costs about a second; the thorough tier always re-runs it;
   4. when all of that is green on the default tree, keeps the generated text as the *reference*
      `lean/OdcGeo/GenRef/Cxx.lean` (namespace OdcGeo.GenRef.Cxx): definitions proved equal to the hand model.
 
@@ -29,8 +33,8 @@ it escalates to a behavioural search:
     failure (`key = source-tie:<function>`), so `Run.finish` prints `VIOLATION property=Cxx replay=<path>` with that
     input (`check.py Cxx --replay <path>` re-evaluates it, see `replay`);
   * no differing input: no VIOLATION.  The evidence records `source_tie.tie_lost = [{function, reason}]`, the line
-    `INFO: property=Cxx source tie lost …` is printed, the tie module is left out of this run's proof stage (its
-    theorems are not counted as obligations of this run), and the claim for those functions falls back to the
+    `INFO: property=Cxx source tie lost …` is printed, the pieces of the lost ties are left out of this run's proof
+    stage (their theorems are not counted as obligations of this run; the other pieces still are), and the claim for those functions falls back to the
     behavioural correspondence, which runs as always; the property's `R.searchers` are also run once (after the main
     run) so that a failing input of the *property* is still looked for around the change.
 
@@ -60,7 +64,7 @@ VERIF = Path(__file__).resolve().parent.parent
 LEAN_DIR = VERIF / "lean"
 
 # properties for which the stage is active (enable only after multi-seed quick + one thorough run are green)
-GENTIE_READY: List[str] = ["C17", "C20", "C03"]
+GENTIE_READY: List[str] = ["C17", "C20", "C03", "C04"]
 
 
 
@@ -70,7 +74,8 @@ def ready(pid: str) -> bool:
 
 
 _LOST: Dict[str, List[str]] = {}     # pid -> reasons (this process): the tie module is left out of the proof stage
-_ACTIVE: Dict[str, bool] = {}        # pid -> tie module built green in this process
+_ACTIVE: Dict[str, bool] = {}        # pid -> every tie piece built green in this process
+_GOOD: Dict[str, List[str]] = {}     # pid -> tie pieces that built in this process (these are audited)
 _LOCKS: Dict[str, Any] = {}
 
 
@@ -83,6 +88,7 @@ def _py2lean():
 
 
 def tie_module(pid: str) -> str:
+    """aggregator: imports every piece"""
     return f"OdcGeo.Props.Gen{pid}"
 
 
@@ -90,13 +96,27 @@ def tie_file(pid: str) -> Path:
     return LEAN_DIR / "OdcGeo" / "Props" / f"Gen{pid}.lean"
 
 
+def tie_pieces(pid: str) -> List[str]:
+    """the tie theorems live in Props/GenCxx/<Piece>.lean, one compilation unit per tied function or small group, so
+    that a lost tie only removes its own theorems (and those of the functions that call it) from a run's obligations"""
+    d = LEAN_DIR / "OdcGeo" / "Props" / f"Gen{pid}"
+    return [f"OdcGeo.Props.Gen{pid}.{f.stem}" for f in sorted(d.glob("*.lean"))]
+
+
+def _module_path(m: str) -> Path:
+    return LEAN_DIR / (m.replace(".", "/") + ".lean")
+
+
 def extra_modules(pid: str) -> List[str]:
-    """theorem modules the source tie adds to a property (hook of common.props_modules)"""
-    if not ready(pid) or not tie_file(pid).exists():
+    """theorem modules the source tie adds to a property (hook of common.props_modules): the pieces that built in this
+    run"""
+    if not ready(pid) or not tie_pieces(pid):
         return []
+    if pid in _GOOD:
+        return list(_GOOD[pid])
     if pid in _LOST:
         return []
-    return [tie_module(pid)]
+    return []   # the stage has not run in this process (replay, tools): nothing is claimed
 
 
 # ----------------------------------------------------------------------------------------------- the stage
@@ -118,25 +138,60 @@ def _theorem_at(lines: List[str], ln: int) -> Optional[str]:
     return None
 
 
-def _build_tie(pid: str) -> Tuple[bool, List[str], str]:
-    """-> (ok, names of theorems that failed, log tail)"""
-    p = subprocess.run(["lake", "build", tie_module(pid)], cwd=str(LEAN_DIR), capture_output=True, text=True, timeout=3000)
-    log = p.stdout + p.stderr
-    if p.returncode == 0:
-        return True, [], ""
+def _lake_build(mods: List[str]) -> Tuple[int, str]:
+    p = subprocess.run(["lake", "build", *mods], cwd=str(LEAN_DIR), capture_output=True, text=True, timeout=3000)
+    return p.returncode, p.stdout + p.stderr
+
+
+def _build_tie(pid: str) -> Tuple[bool, List[str], str, List[str]]:
+    """-> (all ok, names of theorems that failed / were not built, log tail, pieces that built)"""
+    pieces = tie_pieces(pid)
+    rc, log = _lake_build(pieces)
+    if rc == 0:
+        return True, [], "", pieces
+    good: List[str] = []
     failed: List[str] = []
-    src = tie_file(pid).read_text().splitlines()
-    for m in re.finditer(r"error: (\S+?):(\d+):(\d+):", log):
-        f, ln = m.group(1), int(m.group(2))
-        if f.endswith(f"Props/Gen{pid}.lean"):
-            t = _theorem_at(src, ln)
-            name = f"OdcGeo.{pid}.{t}" if t else f"{f}:{ln}"
+    errs: List[str] = []
+    # pieces that logged failures themselves, and the pieces importing them (not built)
+    bad = {m for m in pieces if re.search(r"^- " + re.escape(m) + r"$", log, re.M)}
+    imports = {m: set(re.findall(r"^import (\S+)$", _module_path(m).read_text(), re.M)) for m in pieces}
+    changed = True
+    while changed:
+        changed = False
+        for m in pieces:
+            if m not in bad and imports[m] & bad:
+                bad.add(m)
+                changed = True
+    cand = [m for m in pieces if m not in bad]
+    fast = bool(bad) and (not cand or _lake_build(cand)[0] == 0)
+    for m in pieces:   # which pieces still build (a piece also fails when a piece it imports fails)
+        if fast and m in cand:
+            good.append(m)
+            continue
+        if fast:
+            rc1, log1 = 1, "\n".join(l for l in log.splitlines() if _module_path(m).as_posix().split("/lean/")[-1] in l)
         else:
-            name = f"{f}:{ln}"
-        if name not in failed:
-            failed.append(name)
-    errs = [l for l in log.splitlines() if "error" in l][:12]
-    return False, failed or ["(build failed without a located error)"], "\n".join(errs)[-2500:]
+            rc1, log1 = _lake_build([m])
+        if rc1 == 0:
+            good.append(m)
+            continue
+        src = _module_path(m).read_text().splitlines()
+        own = [mm.group(1) for l in src for mm in [re.match(r"\s*theorem\s+(\S+)", l)] if mm]
+        located = []
+        for mm in re.finditer(r"error: (\S+?):(\d+):(\d+):", log1):
+            f, ln = mm.group(1), int(mm.group(2))
+            if _module_path(m).as_posix().endswith(f):
+                t = _theorem_at(src, ln)
+                if t and t not in located:
+                    located.append(t)
+        for t in (located or own):
+            name = f"OdcGeo.{pid}.{t}"
+            if name not in failed:
+                failed.append(name)
+        if not located:  # not built because an imported piece failed (or the generated file does not compile)
+            errs.append(f"{m}: not built (an imported module failed)")
+        errs += [l for l in log1.splitlines() if l.startswith("error:") and "build failed" not in l][:3]
+    return False, failed or ["(build failed without a located error)"], "\n".join(dict.fromkeys(errs))[-2500:], good
 
 
 def run_tie(R, pid: str) -> None:
@@ -165,8 +220,10 @@ def run_tie(R, pid: str) -> None:
         if f["error"]:
             lost.append({"function": f["py"], "reason": "can no longer be translated: " + f["error"]})
     tb = time.time()
-    ok, failed, log = _build_tie(pid)
+    ok, failed, log, good = _build_tie(pid)
+    _GOOD[pid] = good
     info["build_s"] = round(time.time() - tb, 2)
+    info["tie_pieces"] = {"built": len(good), "of": len(tie_pieces(pid))}
     if not ok:
         info["failed_theorems"] = failed
         info["build_errors"] = log
@@ -174,15 +231,21 @@ def run_tie(R, pid: str) -> None:
         named = [by_thm[t] for t in failed if t in by_thm]
         for fn in named:
             if not any(l["function"] == fn for l in lost):
-                lost.append({"function": fn, "reason": f"tie theorem no longer builds (lake build {tie_module(pid)})"})
+                lost.append({"function": fn, "reason": "tie theorem no longer builds (or a tie it uses does not)"})
         if not lost:
-            lost.append({"function": "*", "reason": "tie module no longer builds: " + ", ".join(failed)})
+            lost.append({"function": "*", "reason": "tie theorems no longer build: " + ", ".join(failed)})
     # differential self-check of the translator (needs the generated file to compile)
     ts = time.time()
-    try:
-        sc = self_check(pid, targets, R.seed, 120 if R.quick else 600)
-    except Exception as e:  # pylint: disable=broad-except
-        sc = {"error": f"{type(e).__name__}: {e}"}
+    per_fn = 120 if R.quick else 600
+    ckey = _self_check_key(pid, targets, R.seed, per_fn)
+    sc = _cache_get(pid, ckey) if R.quick else None   # the thorough tier always re-runs it
+    if sc is None:
+        try:
+            sc = self_check(pid, targets, R.seed, per_fn)
+        except Exception as e:  # pylint: disable=broad-except
+            sc = {"error": f"{type(e).__name__}: {e}"}
+        if not sc.get("diffs") and not sc.get("error") and not sc.get("skipped"):
+            _cache_put(pid, ckey, sc)
     info["self_check_s"] = round(time.time() - ts, 2)
     info["self_check"] = {k: v for k, v in sc.items() if k != "diffs"}
     if sc.get("diffs"):
@@ -196,6 +259,16 @@ def run_tie(R, pid: str) -> None:
     elif sc.get("error") and ok:
         lost.append({"function": "*", "reason": "translator self-check could not run: " + sc["error"][:300]})
 
+    # a piece whose function is lost for another reason (self-check difference) is not audited either
+    lost_thms = {e["tie"] for e in entries if e.get("tie") and any(l["function"] in (e["py"], "*") for l in lost)}
+    if lost_thms:
+        keep = []
+        for m in _GOOD.get(pid, []):
+            text = _module_path(m).read_text()
+            if not any(re.search(r"\b" + re.escape(t) + r"\b", text) for t in lost_thms):
+                keep.append(m)
+        _GOOD[pid] = keep
+        info["tie_pieces"]["audited"] = len(keep)
     status = "tied"
     if not lost:
         _ACTIVE[pid] = True
@@ -247,6 +320,58 @@ def run_tie(R, pid: str) -> None:
     print(f"source-tie: property={pid} status={status} functions={len(info['functions'])} "
           f"tie_theorems={len(info['tie_theorems'])} self_check_cases={sc.get('cases')} "
           f"lost={[l['function'] for l in lost]} wall={info['wall_s']}s", file=sys.stderr)
+
+
+def _self_check_key(pid: str, targets: Dict[str, Any], seed: int, per_fn: int) -> str:
+    """everything the self-check's outcome depends on: generated text, prelude, manifest, this file, the python
+    modules of the tied functions (whole files: wrappers used by `pycall` live there too), seed and size"""
+    import hashlib
+    import json as _json
+
+    h = hashlib.sha256()
+    files = [LEAN_DIR / "OdcGeo" / "Gen" / f"{pid}.lean", LEAN_DIR / "OdcGeo" / "Gen" / "PyPrelude.lean", Path(__file__)]
+    repo = Path(os.environ.get("ODC_GEO_REPO") or "/repo")
+    files += sorted({repo / e["module"] for e in targets[pid]["functions"]})
+    for f in files:
+        h.update(str(f.name).encode())
+        h.update(f.read_bytes() if f.exists() else b"<missing>")
+    h.update(_json.dumps(targets[pid], sort_keys=True, default=str).encode())
+    h.update(f"{seed}/{per_fn}/{sys.version_info[:2]}".encode())
+    return h.hexdigest()
+
+
+def _cache_file(pid: str) -> Path:
+    return LEAN_DIR / ".lake" / f"gentie_selfcheck_{pid}.json"   # build directory: never committed
+
+
+def _cache_get(pid: str, key: str) -> Optional[Dict[str, Any]]:
+    import json as _json
+
+    try:
+        d = _json.loads(_cache_file(pid).read_text())
+        r = d.get(key)
+        if r is not None:
+            return {**r, "cached": True}
+    except Exception:  # pylint: disable=broad-except
+        pass
+    return None
+
+
+def _cache_put(pid: str, key: str, sc: Dict[str, Any]) -> None:
+    import json as _json
+
+    try:
+        f = _cache_file(pid)
+        try:
+            d = _json.loads(f.read_text())
+        except Exception:  # pylint: disable=broad-except
+            d = {}
+        if len(d) > 40:
+            d = {}
+        d[key] = {k: v for k, v in sc.items() if k != "diffs"} | {"diffs": []}
+        f.write_text(_json.dumps(d))
+    except Exception:  # pylint: disable=broad-except
+        pass
 
 
 def _run_searchers_after_main(R) -> None:
@@ -339,6 +464,7 @@ def hook(R) -> None:
             import traceback
 
             _LOST[R.prop] = [f"stage error: {type(e).__name__}: {e}"]
+            _GOOD.pop(R.prop, None)
             R.extra["source_tie"] = {"status": "lost", "tie_lost": [{"function": "*", "reason": "stage error: " + traceback.format_exc()[-1500:]}]}
             print(f"INFO: property={R.prop} source tie not established in this run (stage error: {type(e).__name__}: {e}); "
                   "the behavioural correspondence remains the tie")
@@ -380,6 +506,8 @@ class _Types:
                 return rng.randint(-17, 17) / 2.0  # half-way values
             m = rng.randint(0, 6)
             return rng.randint(-(2**12), 2**12) / float(2**m)
+        if k == "nat":
+            return rng.randint(0, 9)
         if k == "bool":
             return rng.random() < 0.5
         if k == "none":
@@ -389,7 +517,7 @@ class _Types:
         if k == "tuple":
             return tuple(self.gen(x, rng) for x in t[1])
         if k == "list":
-            return [self.gen(t[1], rng) for _ in range(rng.randint(0, 4))]
+            return tuple(self.gen(t[1], rng) for _ in range(rng.randint(0, 4)))  # python side: a tuple
         if k == "struct":
             fs = [(n, self.parse(ty)) for n, ty in self.named[t[1]]["fields"]]
             kinds = self.named[t[1]].get("gen", {})
@@ -407,6 +535,8 @@ class _Types:
         raise ValueError(f"no generator for {t}")
 
     def gen_kind(self, kind: str, rng: random.Random):
+        if kind == "none":
+            return None
         if kind == "posint":
             return rng.choice([1, 1, 2, 3, 4, 5, 7, 8, 16, 100, 2**33])
         if kind == "nonneg":
@@ -423,6 +553,12 @@ class _Types:
             return rng.choice([0.0, 0.0, 0.5, 0.25, 0.75, 0.125, 1.0, -0.5])
         if kind == "optunit":
             return None if rng.random() < 0.3 else self.gen_kind("unit", rng)
+        if kind == "offsets":
+            out, acc = [0], 0
+            for _ in range(rng.randint(0, 5)):
+                acc += rng.randint(0, 40)
+                out.append(acc)
+            return tuple(out)
         if kind == "nnslice":
             return slice(rng.randint(0, 9), rng.randint(0, 12))
         if kind == "pm1":
@@ -435,7 +571,7 @@ class _Types:
     def dec(self, t, toks: List[str]):
         """inverse of enc: -> (python value, remaining tokens)"""
         k = t[0]
-        if k == "int":
+        if k in ("int", "nat"):
             return int(toks[0]), toks[1:]
         if k == "float":
             return float(Fraction(toks[0])), toks[1:]
@@ -459,7 +595,7 @@ class _Types:
             for _ in range(n):
                 v, toks = self.dec(t[1], toks)
                 out.append(v)
-            return out, toks
+            return tuple(out), toks
         if k == "struct":
             vals = []
             for _, ft in self.named[t[1]]["fields"]:
@@ -481,7 +617,7 @@ class _Types:
 
     def enc(self, t, v) -> List[str]:
         k = t[0]
-        if k == "int":
+        if k in ("int", "nat"):
             if isinstance(v, bool) or int(v) != v:
                 raise TypeError(f"not an int: {v!r}")
             return [str(int(v))]
@@ -685,8 +821,8 @@ def main() -> int:
             if f["error"]:
                 print(f"{pid}: UNTRANSLATABLE {f['error']}", file=sys.stderr)
                 rc = 1
-        ok, failed, log = _build_tie(pid)
-        print(f"{pid}: regenerated ({'changed' if reg['changed'] else 'unchanged'}), tie module {'built' if ok else 'FAILED: ' + ', '.join(failed)}")
+        ok, failed, log, _good = _build_tie(pid)
+        print(f"{pid}: regenerated ({'changed' if reg['changed'] else 'unchanged'}), tie pieces {'built' if ok else 'FAILED: ' + ', '.join(failed)}")
         if not ok:
             print(log, file=sys.stderr)
             rc = 1
